@@ -1011,11 +1011,16 @@ class LanguageGraph():
                         'stepExpressions' in \
                         attack_steps[step['name']]['reaches']:
                     attack_steps[step['name']]['reaches']['stepExpressions'].\
-                        extend(step['reaches']['stepExpressions'])
+                        extend(copy.deepcopy(
+                            step['reaches']['stepExpressions']))
                 else:
+                    # Copy the expressions, otherwise the list of the language
+                    # specification itself would be extended further down the
+                    # inheritance chain.
                     attack_steps[step['name']]['reaches'] = {
                         'overrides': False,
-                        'stepExpressions': step['reaches']['stepExpressions']
+                        'stepExpressions': copy.deepcopy(
+                            step['reaches']['stepExpressions'])
                     }
 
 
